@@ -42,7 +42,9 @@ Touched(t) ==
     CASE t.m = 0 /\ t.key = WrapTopN -> 1 + (IF t.topint >= 0 THEN t.topint ELSE 0)
       [] t.m = 0 -> t.ka
       [] t.m \in {m_v, m_amp} -> t.ka
-      [] t.m = m_tilde -> IF t.ka >= 2 THEN t.ka ELSE t.ka            \* a niladic element under ~ does nothing
+      \* ~ with a dyad / triad only LOOKS at its arguments: they stay where they are (same objects, same order,
+      \* under flag r too) and the result is added; with a monad it filters its one argument
+      [] t.m = m_tilde -> IF t.ka >= 2 THEN 0 ELSE t.ka
       [] t.m = m_sz -> IF t.condtrue THEN t.ka + 1 ELSE 1              \* a falsy condition: only the condition goes
       [] t.m \in {m_fhook, m_dtail} -> 1
       [] t.m \in {m_para, m_paral} -> t.kb          \* the first element works on a COPY of the stack
@@ -72,12 +74,20 @@ ExpectedLen(t) ==
       [] OTHER -> Len(t.ids0) - t.tb + 1
 Prop_C09_Results(t) == ResultCountKnown(t) => Len(t.ids1) = ExpectedLen(t)
 
+TwinShapeOK(t) ==
+    LET keep == Len(t.ids0) - Touched(t)
+    IN /\ Len(t.twin) = Len(t.full1)
+       /\ (keep <= 0 \/ (Len(t.twin) >= keep /\ SubSeq(t.twin, 1, keep) = SubSeq(t.full1, 1, keep)))
+
 Verdict(t) ==
-    IF t.key \in WholeStackKeys \/ (t.key = VyxalExec /\ t.strarg) \/ (t.m # 0 /\ t.opkey \in WholeStackKeys \cup {WrapTopN})
+    IF t.key \in WholeStackKeys \/ (t.m = 0 /\ t.key = VyxalExec /\ t.strarg) \/ (t.m # 0 /\ t.opkey \in WholeStackKeys \cup {WrapTopN})
     THEN "skip:whole-stack-operation"
     ELSE IF t.raised # "" THEN "skip:inapplicable-" \o t.raised
     ELSE IF ~Prop_C09(t) THEN "violation:entries-below-changed"
     ELSE IF ~Prop_C09_Results(t) THEN "violation:number-of-results"
+    \* the same construct with its list arguments given the other way (eager <-> lazy) has the same STACK EFFECT:
+    \* as many entries left, the same entries below the touched ones (what the results are is not this property)
+    ELSE IF "twinok" \in DOMAIN t /\ t.twinok /\ ~TwinShapeOK(t) THEN "violation:stack-effect-differs-for-lazy-arguments"
     ELSE "ok"
 
 Init == tid \in 1..Len(Batch) /\ phase = "start"
